@@ -98,6 +98,7 @@ std::vector<std::uint8_t> encoding_with_lying_lengths(sk::Rng& g, const en::Peer
 Plan gen_c35(sk::Rng& r, Tier) {
     Plan p;
     gen_w4_knobs(p, r);
+    p.knobs["deschedule"] = r.pick<std::int64_t>({0, 0, 30, 200});   // long preemptions of arbitrary threads
     p.knobs["token"] = r.chance(1, 4);
     const int n = static_cast<int>(r.range(3, 10));
     for (int i = 0; i < n; ++i) {
@@ -475,7 +476,8 @@ Scenario make_c35() {
     s.assumptions = {"a byzantine peer that merely stays connected and silent is exercised (leave mode 2) but the run only demands service for others after the attackers have gone",
                      "the relay server and the STUN client are judged under C25/C26 and C33"};
     s.rule = "plan = network knobs, token on/off, 3..10 operations (pre-handshake bytes, lying length, handshake shapes, session scripts of three actions with one of 13 manifest forgeries and a leave mode, raw control requests, forged FETCH, honest requests); non-trivial = any byzantine operation; distinct = plan hash";
-    s.gen = gen_c35; s.exec = exec_c35; s.kernel_knobs = w4_knobs;
+    s.gen = gen_c35; s.exec = exec_c35;
+    s.kernel_knobs = [](const Plan& p) { sk::Knobs k = w4_knobs(p); k.deschedule_per_65536 = static_cast<std::uint32_t>(p.knob("deschedule", 0)); return k; };
     s.crash_is_violation = true;
     s.quick_runs = 2500; s.thorough_runs = 200000; s.quick_secs = 48; s.thorough_secs = 1200;
     return s;
